@@ -65,6 +65,7 @@ def jobs_for(spec: DSpec, timeout=900, mem_gb=14, weight=1, required=True):
         jobs.append(kani.Job(jid=h, crate=d, harness=h, desc=(spec.note + " | " if spec.note else "") + gtxt,
                              bound={"input_bytes": f"<={spec.n}", "alphabet": "all UTF-8", "unwind": u, "grammars": info["grammars"]},
                              timeout=timeout, mem_gb=mem_gb, weight=weight, required=required, cbmc_args=list(spec.cbmc_args),
+                             expect=("known" if h.endswith("_known") else "pass"),
                              meta={"role": spec.name, "nbytes": spec.n, "spec": spec.name, "unwindset": list(spec.unwindset),
                                    "optional_covers": ["parse succeeds", "parse fails"] + list(spec.optional_covers)}))
     return jobs, info
